@@ -441,16 +441,15 @@ fn run_write(ic: &IoCase, plan: Plan, reference: &[u8], out: &mut Vec<Finding>, 
         io_fail(out, "io_fault_panic", ic, "write", &plan, format!("panic: {}", m));
         return;
     }
-    let hard = plan.devs.iter().any(|(i, d)| !d.benign() && *i < w.calls) && w.fired > 0 && plan.devs.iter().any(|(_, d)| !d.benign());
-    let hard_fired = hard && w.fired > 0;
-    if hard_fired {
-        // a hard fault that really reached the operation: it must surface as Err
-        let fired_hard = plan.devs.iter().filter(|(i, d)| !d.benign() && *i < w.calls).count() > 0;
+    // judge by what was actually DELIVERED to the operation (a planned deviation at a call index
+    // the operation never reaches did not happen)
+    let delivered_hard = w.delivered.iter().any(|d| !d.benign());
+    if delivered_hard {
         // Ok(0) is "nothing accepted this time": retrying it is legitimate as long as the complete,
         // identical output is produced in the end
-        let only_zero = plan.devs.iter().all(|(_, d)| d.benign() || *d == Dev::Zero);
+        let only_zero = w.delivered.iter().all(|d| d.benign() || *d == Dev::Zero);
         let complete = if ic.c == Container::Encrypted { plaintext(ic.c, &w.accepted) == plaintext(ic.c, reference) } else { w.accepted == reference };
-        if fired_hard && res.is_ok() && !(only_zero && complete) {
+        if res.is_ok() && !(only_zero && complete) {
             io_fail(out, "write_failure_reported_as_success", ic, "write", &plan, "the writer failed but save returned Ok".into());
         }
         if ic.c != Container::Encrypted && !reference.starts_with(&w.accepted) {
@@ -488,10 +487,10 @@ fn run_read(ic: &IoCase, plan: Plan, file: &[u8], out: &mut Vec<Finding>, st: &m
         io_fail(out, "io_fault_panic", ic, "read", &plan, format!("panic: {}", m));
         return;
     }
-    let fired_hard = plan.devs.iter().any(|(i, d)| !d.benign() && *i < r.calls) && r.fired > 0;
+    let fired_hard = r.delivered.iter().any(|d| !d.benign());
     let got = res.as_ref().ok().and_then(|l| l.vals.first().map(|v| canon(&ic.e.ty, v)));
     if fired_hard {
-        let zero_only = plan.devs.iter().all(|(_, d)| d.benign() || *d == Dev::Zero);
+        let zero_only = r.delivered.iter().all(|d| d.benign() || *d == Dev::Zero);
         match &res {
             Ok(_) if got == Some(want.clone()) && zero_only => {} // premature EOF after everything needed was read
             Ok(_) if got == Some(want.clone()) => io_fail(out, "read_failure_reported_as_success", ic, "read", &plan, "the reader failed but load returned the value".into()),
@@ -738,4 +737,76 @@ pub fn run_item(prop: &str, entries: &[Entry], thorough: bool, pos: usize, d: &m
         (d.emit)(f);
     }
     sample
+}
+
+// =============================================================================== replay
+
+fn dev_of(s: &str) -> Dev {
+    Dev::ALL.iter().copied().find(|d| format!("{:?}", d) == s).unwrap_or_else(|| vcommon::machinery_error(&format!("replay: unknown deviation {}", s)))
+}
+
+/// re-execute exactly one recorded fault case
+pub fn replay_case(entries: &[Entry], case: &Value, out: &mut Vec<Finding>, st: &mut Stats) {
+    let find = |name: &str| entries.iter().find(|e| e.ty.rust() == name).unwrap_or_else(|| vcommon::machinery_error(&format!("replay: type {} not found", name)));
+    let container = |s: &str| CONTAINERS.iter().copied().chain([Container::Bare]).find(|c| format!("{:?}", c) == s).unwrap_or(Container::Plain);
+    let mut emit = |_f: Finding| {};
+    let mut d = Driver { pos: 0, skip_through: 0, sno: 0, emit: &mut emit };
+    match case["kind"].as_str() {
+        Some("io") => {
+            let e = find(case["rust_type"].as_str().unwrap_or(""));
+            let val = crate::valjson::from_json(&case["value"]);
+            let c = container(case["container"].as_str().unwrap_or(""));
+            let ver = case["version"].as_u64().unwrap_or(0) as u32;
+            let ic = IoCase { e, val: &val, ver, c };
+            let plan = Plan {
+                devs: case["devs"].as_array().map(|a| a.iter().map(|x| (x[0].as_u64().unwrap() as usize, dev_of(x[1].as_str().unwrap()))).collect()).unwrap_or_default(),
+                chunks: case["chunks"].as_array().map(|a| a.iter().map(|x| x.as_u64().unwrap() as usize).collect()).unwrap_or_default(),
+                sticky: true,
+            };
+            let mut w0 = FaultW::new(Plan::default(), usize::MAX);
+            e.ops.save(c, ver, Ctx::Single, std::slice::from_ref(&val), &mut w0).unwrap_or_else(|e| vcommon::machinery_error(&format!("replay: fault-free save failed {:?}", e)));
+            let reference = w0.accepted.clone();
+            println!("fault-free: {} writer calls, {} bytes", w0.calls, reference.len());
+            if case["side"].as_str() == Some("write") {
+                let mut w = FaultW::new(plan.clone(), 10 * reference.len() + 1000);
+                let res = e.ops.save(c, ver, Ctx::Single, std::slice::from_ref(&val), &mut w);
+                println!("with plan {:?}: result {:?}, {} calls, {} deviations delivered, accepted {} bytes (complete: {})", plan, res.as_ref().map_err(op_msg), w.calls, w.fired, w.accepted.len(), w.accepted == reference);
+                run_write(&ic, plan, &reference, out, st);
+            } else {
+                run_read(&ic, plan, &reference, out, st);
+            }
+        }
+        Some("trunc") => {
+            let e = find(case["rust_type"].as_str().unwrap_or(""));
+            let val = crate::valjson::from_json(&case["value"]);
+            let all = {
+                let mut o = vec![];
+                trunc_case(e, &val, case["version"].as_u64().unwrap_or(0) as u32, true, &mut o, st, &mut d);
+                o
+            };
+            out.extend(all.into_iter().filter(|f| f.v.case["cut"] == case["cut"] && f.v.case["container"] == case["container"]));
+        }
+        Some("trunc_file") | Some("crypt") | Some("dev_full") => {
+            let fcs = file_cases();
+            let name = case["file_case"].as_str().or(case["extra"]["file_case"].as_str()).unwrap_or("");
+            if let Some(fc) = fcs.iter().find(|f| f.name == name) {
+                let mut o = vec![];
+                match case["kind"].as_str() {
+                    Some("trunc_file") => trunc_file_case(fc, true, &mut o, st, &mut d),
+                    Some("dev_full") => dev_full_case(fc, &mut o, st, &mut d),
+                    _ => crypt_file_case(fc, false, &mut o, st, &mut d),
+                }
+                out.extend(o.into_iter().filter(|f| f.v.case["mutation"] == case["mutation"] && f.v.case["cut"] == case["cut"] && f.v.case["container"] == case["container"]));
+            } else if let Some(rt) = case["extra"]["rust_type"].as_str() {
+                let e = find(rt);
+                let val = crate::valjson::from_json(&case["extra"]["value"]);
+                let mut o = vec![];
+                crypt_memory_case(e, &val, false, true, &mut o, st, &mut d);
+                out.extend(o.into_iter().filter(|f| f.v.case["mutation"] == case["mutation"]));
+            } else {
+                vcommon::machinery_error("replay: cannot identify the case");
+            }
+        }
+        k => vcommon::machinery_error(&format!("replay: unknown fault case kind {:?}", k)),
+    }
 }
